@@ -28,7 +28,12 @@ UNIVERSES = {
     'ints':     [0,1,2],
     'dense':    [(1,0),(0,1),(1,1)],
     'sparse':   [{'a':1},{'b':1},{'a':1,'b':2}],
+    'rowviews': None,      # coba's own row views (LazyDense, HeadDense, LazySparse): Dense/Sparse but neither list/tuple/dict nor hashable; built per run
 }
+def _universe(name):
+    if name != 'rowviews': return UNIVERSES[name]
+    from coba.pipes.rows import LazyDense, HeadDense, LazySparse
+    return [LazyDense(lambda: [1,0]), HeadDense([0,1],{'x':0,'y':1}), LazySparse({'a':1,'b':2})]
 SUBSETS = [[0,1,2],[0,1],[1,2],[2],[1,0]]
 
 class _MathStub:
@@ -55,7 +60,7 @@ def make(kind, sym):
 def params(tier):
     T = 3 if tier == 'quick' else 4
     ps = [dict(kind=k, uni='hashable', T=T) for k in ('eps0','eps.1','eps1','ucb','random','misguided_eps','misguided_ucb')]
-    ps += [dict(kind=k, uni=u, T=T) for k in ('eps.1','ucb') for u in ('ints','dense','sparse')]
+    ps += [dict(kind=k, uni=u, T=T) for k in ('eps.1','ucb') for u in ('ints','dense','sparse')] + [dict(kind=k, uni='rowviews', T=2) for k in ('eps.1','ucb','misguided_eps')]
     if tier == 'thorough': ps += [dict(kind=k, uni=u, T=3) for k in ('eps0','eps1','random','misguided_eps','misguided_ucb') for u in ('ints','dense','sparse')]
     return ps
 
@@ -86,7 +91,7 @@ def _classify(v):
             functions=FUNCS, params=params, classify=_classify, budget={'quick':80,'thorough':900},
             stubs=["math.sqrt in coba.learners.bandit by contract (UCB only)"])
 def bandits(sym, kind, uni, T):
-    U = UNIVERSES[uni]
+    U = _universe(uni)
     sets = [sym.choice(f'set{t}', [SUBSETS[0],SUBSETS[2],SUBSETS[3],SUBSETS[4]] if t else SUBSETS[:2]) for t in range(T)]
     modes = [sym.choice(f'mode{t}', ['on','logged']) for t in range(T-1)]
     lrn = make(kind, sym)
@@ -170,12 +175,14 @@ def corral_grid(sym, eta, T, mode):
         ps = lrn._ps
         sym.check(all(w > 0 for w in ps) and abs(sum(ps)-1) < 1e-3, f"after learn Corral weights {ps} are not a strictly positive distribution (1e-3)")
 
-@obligation('C16','corral_long', bounds="NOT symbolic: concrete runs of 120 rounds. Corral over 2 deterministic base learners picking different actions, or Random+BanditEpsilon; eta in {0.5,1}; finite horizons T in {4,20,1000} and inf; both modes; reward schedule in {always 0, always 1, 1 only for the first base learner's pick, alternating}: after every round the base-learner weights (raw and smoothed) are a strictly positive distribution and the reported probability is in (0,1]",
+@obligation('C16','corral_long', bounds="NOT symbolic: concrete runs of 120 rounds. Corral over 2 deterministic base learners picking different actions, Random+BanditEpsilon, or four FixedLearners (optionally taught with a small logged probability .05); eta in {0.5,1}; finite horizons T in {4,20,1000} and inf; both modes; reward schedule in {always 0, always 1, 1 only for the first base learner's pick, alternating}: after every round the base-learner weights (raw and smoothed) are a strictly positive distribution and the reported probability is in (0,1]",
             functions=FUNCS, params=lambda tier: [dict(eta=e, T=T, mode=m) for e in (0.5,1) for T in (4,20,1000,math.inf) for m in ('importance','off-policy')], classify=_classify)
 def corral_long(sym, eta, T, mode):
-    bases = sym.choice('bases', ['disagree','builtin'])
+    bases = sym.choice('bases', ['disagree','builtin','four_fixed'])
     sched = sym.choice('rewards', ['zero','one','first','alternate'])
-    base = {'disagree': lambda: [_Base(0),_Base(1)], 'builtin': lambda: [RandomLearner(1), BanditEpsilonLearner(.1,2)]}[bases]()
+    base = {'disagree': lambda: [_Base(0),_Base(1)], 'builtin': lambda: [RandomLearner(1), BanditEpsilonLearner(.1,2)],
+            'four_fixed': lambda: [FixedLearner([1,0,0]), FixedLearner([0,1,0]), FixedLearner([0,0,1]), FixedLearner([.5,.5,0])]}[bases]()
+    small_p = bases == 'four_fixed' and sym.flag('small_logged_probability')
     lrn = CorralLearner(base, eta=eta, T=T, mode=mode, seed=1)
     actions = ['A','B','C']
     for t in range(120):
@@ -186,9 +193,27 @@ def corral_long(sym, eta, T, mode):
         ps = lrn._p_bars
         sym.check(all(w > 0 for w in ps) and abs(sum(ps)-1) < 1e-3, f"round {t}: smoothed Corral weights {ps} are not a strictly positive distribution (eta={eta},T={T},mode={mode},bases={bases},{sched})")
         r = {'zero':0, 'one':1, 'first': 1 if a == 'A' else 0, 'alternate': t % 2}[sched]
-        try: lrn.learn(None, a, r, p, **kw)
+        try: lrn.learn(None, a, r, (0.05 if small_p else p), **kw)
         except Exception as e: sym.fail(f"round {t}: Corral.learn raised {type(e).__name__}: {e} (eta={eta},T={T},mode={mode},bases={bases},{sched})")
         ps = lrn._ps
         sym.check(all(w > 0 for w in ps) and abs(sum(ps)-1) < 1e-3, f"round {t}: after learn Corral weights {ps} are not a strictly positive distribution (eta={eta},T={T},mode={mode},bases={bases},{sched})")
         ps = lrn._p_bars
         sym.check(all(w > 0 for w in ps) and abs(sum(ps)-1) < 1e-3, f"round {t}: after learn smoothed Corral weights {ps} are not a strictly positive distribution (eta={eta},T={T},mode={mode},bases={bases},{sched})")
+
+@obligation('C16','zero_draw', bounds="the built-in learners seeded with the generator state whose first uniform draw is exactly 0.0 (seed 482549499): BanditUCB after one learn, BanditEpsilon(0) after one learn, FixedLearner([0,.5,.5]), Misguided(eps): the first prediction is an offered action reported with a probability > 0 that equals its score",
+            functions=FUNCS, params=lambda tier: [dict(kind=k) for k in ('ucb','eps0','fixed','misguided')], classify=_classify)
+def zero_draw(sym, kind):
+    Z = 482549499
+    from coba.random import CobaRandom
+    sym.check(CobaRandom(Z).random() == 0, "the seed with a first uniform of exactly 0.0 moved")
+    actions = ['x','y','z']
+    lrn = {'ucb': lambda: BanditUCBLearner(seed=Z), 'eps0': lambda: BanditEpsilonLearner(0, seed=Z), 'fixed': lambda: FixedLearner([0,.5,.5], seed=Z),
+           'misguided': lambda: MisguidedLearner(BanditEpsilonLearner(0, seed=Z), 1, -1)}[kind]()
+    if kind in ('ucb','eps0','misguided'):
+        first = sym.choice('taught', actions)
+        lrn.learn(None, first, sym.choice('reward', [0,1]), 1)
+    pred = lrn.predict(None, actions)
+    a, p = pred[0], pred[1]
+    sym.check(a in actions, f"{kind}: predicted {a!r} is not offered")
+    sym.check(p > 0, f"{kind}: at a uniform draw of exactly 0.0 the learner returned {a!r} with probability {p}")
+    sym.check(abs(lrn.score(None, actions, a) - p) < 1e-9, f"{kind}: the reported probability {p} is not score(action) = {lrn.score(None, actions, a)}")
